@@ -1810,6 +1810,9 @@ func (m *repoManager) newVersion(parent dvid.UUID, note string, branchname strin
 		return dvid.NilUUID, err
 	}
 
+	r.versionMu.Lock()
+	defer r.versionMu.Unlock()
+
 	r.RLock()
 	node, found := r.dag.nodes[v]
 	r.RUnlock()
@@ -2435,6 +2438,10 @@ type repoT struct {
 	mutCurID   uint64
 	mutSavedID uint64
 	mutMu      sync.RWMutex
+
+	// versionMu makes the "is this branch still free?" check and the insertion of a
+	// new child node one step, so concurrent requests cannot both pass the check.
+	versionMu sync.Mutex
 }
 
 // newRepo creates a new repository given a UUID, version, and RepoID,
